@@ -29,7 +29,7 @@ LABELS = {  # kind -> (xpath of the faulted label, slots of the model, base text
     "guard": ["k >= 0 && g == fn(k)", "forall (z : int[0,1]) h[z] >= k", "g > (k > 0 ? 1 : 2)",
               "forall (g : int[0,1]) h[g] >= k && exists (k : int[0,1]) h[k] == 1"],   # binders named like names the later labels use
     "invariant": ["x <= k + 5", "x <= 10 && g >= k", "forall (z : int[0,1]) h[z] >= k && x <= 9",
-                  "forall (k : int[0,1]) forall (g : int[0,1]) h[k] >= g && x <= 9"],
+                  "forall (k : int[0,1]) forall (g : int[0,1]) h[k] >= g && x <= 9", "x <= 9 && x' == 2"],
     "synchronisation": ["c[k]!", "c[fn(k)]?"],
     "assignment": ["g = k, h[k] = fn(g)", "g = (k > 0 ? k : g), h[0] = 0"],
     "probability": ["k + 1", "fn(k)"],
@@ -88,7 +88,7 @@ XPATH = {"guard": "/nta/template[1]/transition[1]/label[2]", "synchronisation": 
          "exponentialrate": "/nta/template[1]/location[1]/label[2]", "probability": "/nta/template[1]/transition[3]/label[1]"}
 TOKEN = re.compile(r"[A-Za-z_][A-Za-z_0-9]*|\d+|==|<=|>=|!=|&&|\|\||\+\+|--|[-+*/%<>=!?:;,.(){}\[\]&|^']")
 SIGMA = ["k", "g", "h", "x", "c", "fn", "zz", "0", "1", "(", ")", "[", "]", "{", "}", ",", ";", ":", ".", "'", "?", "!", "+", "-", "<", "<=",
-         "==", "&&", "=", "++", "forall", "exists", "int", "true", "/*", "@", "2147483648", "1.5"]
+         "==", "&&", "=", "++", "forall", "exists", "int", "true", "/*", "@", "2147483648", "1.5", '"a"']
 
 
 def label_faults(kind, t, dyn=False):
